@@ -64,7 +64,9 @@ def check(col, refs, defs, sort=True, transition=True, head="", tail=""):
     # no footnote text lost (first definition of every label is kept)
     for lab in defined:
         if lab not in by_text:
-            col.fail("C11.text-lost", case, f"the definition of [^{lab}] is not in the document")
+            known = "C11-name-clash" if head.strip().lstrip("# ").lower() == lab.lower() else None
+            col.fail("C11.text-lost", case, f"the definition of [^{lab}] is not in the document", known=known,
+                     function="myst_parser.mdit_to_docutils.base:DocutilsRenderer.render_footnote_reference")
             return
     labels = {lab: (fn[0].astext() if len(fn) and isinstance(fn[0], nodes.label) else None) for lab, fn in by_text.items()}
     if len(set(labels.values())) != len(labels):
@@ -153,6 +155,9 @@ def run(tier, seed, extra):
         col.case(("rand", tuple(refs), tuple(defs), sort, tr, head, tail))
         check(col, refs, defs, sort, tr, head, tail)
         cnt += 1
+    col.case(("name-clash",))
+    check(col, ["a"], ["a"], head="# a\n\n")
+    cnt += 1
     # first node of the document is a footnote definition (no heading), followed by other content
     from docutils import nodes
 
